@@ -196,6 +196,8 @@ type fakeCAS struct {
 	corrupt []string
 	// Put calls refused because their context was already done.
 	refused int
+	// Per-call fault plan (nil: calls only fail on a done context).
+	plan *faultPlan
 }
 
 func newFakeCAS() *fakeCAS {
@@ -208,6 +210,13 @@ func (c *fakeCAS) GetCapabilities(ctx context.Context, instanceName digest.Insta
 
 func (c *fakeCAS) Get(ctx context.Context, d digest.Digest) buffer.Buffer {
 	if err := ctx.Err(); err != nil {
+		return buffer.NewBufferFromError(status.FromContextError(err).Err())
+	}
+	if err := c.plan.step("cas.Get", []string{casKey(d.GetHashString(), d.GetSizeBytes())}); err != nil {
+		return buffer.NewBufferFromError(err)
+	}
+	if err := ctx.Err(); err != nil {
+		// Cancelled by the plan at this very call.
 		return buffer.NewBufferFromError(status.FromContextError(err).Err())
 	}
 	data, ok := c.blobs[casKey(d.GetHashString(), d.GetSizeBytes())]
@@ -224,6 +233,17 @@ func (c *fakeCAS) GetFromComposite(ctx context.Context, parentDigest, childDiges
 func (c *fakeCAS) Put(ctx context.Context, d digest.Digest, b buffer.Buffer) error {
 	// Like a gRPC client: nothing is stored on a context that is done.
 	if err := ctx.Err(); err != nil {
+		b.Discard()
+		c.refused++
+		return status.FromContextError(err).Err()
+	}
+	if err := c.plan.step("cas.Put", []string{casKey(d.GetHashString(), d.GetSizeBytes())}); err != nil {
+		// A failing call stores nothing.
+		b.Discard()
+		return err
+	}
+	if err := ctx.Err(); err != nil {
+		// Cancelled by the plan at this very call.
 		b.Discard()
 		c.refused++
 		return status.FromContextError(err).Err()
